@@ -135,7 +135,7 @@ func genSTR(c *hc.Ctx, n int) {
 
 var runePools = [][]rune{
 	[]rune("abcXYZ 019()\\"),
-	[]rune("éüñçß¡¿©"),
+	[]rune("éüñçß¡¿©\u00a0\u00ad\u0085ÿ"), // Latin-1 incl. NO-BREAK SPACE, SOFT HYPHEN, a C1 control
 	[]rune("čĊČďĎč഍ു"), // UTF-16 units containing the byte 0x0D
 	[]rune("ЖжЯяЩ"),
 	[]rune("漢字かな한"),
@@ -147,7 +147,13 @@ func genRunes(c *hc.Ctx, maxLen int) []rune {
 	n := 1 + c.Intn(maxLen)
 	rs := make([]rune, n)
 	nonASCII := c.Chance(0.6)
+	latin1Only := nonASCII && c.Chance(0.3) // every character <= U+00FF
 	for i := range rs {
+		if latin1Only {
+			p := c.Intn(2)
+			rs[i] = runePools[p][c.Intn(len(runePools[p]))]
+			continue
+		}
 		p := 0
 		if nonASCII && c.Chance(0.6) {
 			p = 1 + c.Intn(len(runePools)-2)
@@ -860,7 +866,10 @@ func histAttempt(c *hc.Ctx) bool {
 			wd, ht := float64(10+c.Intn(200)), c.Range(10, 300)
 			closePageKeys()
 			flushTable()
-			w.NewPage(wd, ht)
+			if msg := hc.Try(func() { w.NewPage(wd, ht) }); msg != "" {
+				c.Fail("panic:newpage", "NewPage (writePage of the previous page) panicked: "+msg, map[string]any{"ops": strings.Join(ops, " ")})
+				return true
+			}
 			hasPage, inText = true, false
 			ops = append(ops, "NP", hx([]byte(pdf.VerifDec(wd*pdf.VerifPtPerMm))), hx([]byte(pdf.VerifDec(ht*pdf.VerifPtPerMm))), hx([]byte(cmPrefix())))
 			c.Count("hist:op-newpage")
@@ -871,7 +880,10 @@ func histAttempt(c *hc.Ctx) bool {
 					// make progress: open a page
 					closePageKeys()
 					flushTable()
-					w.NewPage(100, 100)
+					if msg := hc.Try(func() { w.NewPage(100, 100) }); msg != "" {
+						c.Fail("panic:newpage", "NewPage (writePage of the previous page) panicked: "+msg, map[string]any{"ops": strings.Join(ops, " ")})
+						return true
+					}
 					hasPage, inText = true, false
 					ops = append(ops, "NP", hx([]byte(pdf.VerifDec(100*pdf.VerifPtPerMm))), hx([]byte(pdf.VerifDec(100*pdf.VerifPtPerMm))), hx([]byte(cmPrefix())))
 					c.Count("hist:op-newpage")
